@@ -21,7 +21,7 @@ RULE = ("histories over a pool of 12 term recipes (leaves, lazy binary/unary/red
         "audits. A case is one history; non-trivial when it contains >=2 constructions of one key or a drop+gc+reconstruct; distinct by the action sequence")
 ASSUMPTIONS = ["hashable constructor arguments are equal when ==; arrays are equal when identical", "CPython reference counting + gc.collect() reclaims unreachable terms"]
 MIN_NONTRIVIAL = {"quick": 1500, "thorough": 15000}
-REQUIRED_COUNTERS = ["identity-checks", "distinctness-checks", "weakref-dead-checks", "intern-table-audits", "pickle-checks", "stale-field-checks", "used-op-weak-checks"]
+REQUIRED_COUNTERS = ["identity-checks", "distinctness-checks", "weakref-dead-checks", "intern-table-audits", "pickle-checks", "stale-field-checks", "used-op-weak-checks", "hash-collision-checks"]
 
 INTERPS = ("reflect", "lazy", "eager")
 
@@ -304,6 +304,36 @@ def domain_and_op_checks(res, rng, errors):
     res.count("distinctness-checks", 3)
     if ops.SumOp(1, True) is ops.SumOp(1, False) or ops.SumOp(0, True) is ops.SumOp(1, True) or ops.GetitemOp(1) is ops.GetitemOp(2):
         errors.append(("identity:op-distinct", "ops with different parameters are the same object"))
+    # parameters whose python hashes collide (hash(-1) == hash(-2), hash(0) == hash(2**61-1), hash(inf) == hash(314159)): an intern
+    # table keyed by the hash instead of the arguments would conflate them while both are alive
+    colliding = [
+        ("SumOp(-1)/SumOp(-2)", lambda: ops.SumOp(-1, False), lambda: ops.SumOp(-2, False)),
+        ("AmaxOp((-1,))/AmaxOp((-2,))", lambda: ops.AmaxOp((-1,), True), lambda: ops.AmaxOp((-2,), True)),
+        ("LogsumexpOp(-1)/(-2)", lambda: ops.LogsumexpOp(-1, False), lambda: ops.LogsumexpOp(-2, False)),
+        ("UnsqueezeOp(-1)/(-2)", lambda: ops.UnsqueezeOp(-1), lambda: ops.UnsqueezeOp(-2)),
+        ("ArgmaxOp(-1)/(-2)", lambda: ops.ArgmaxOp(-1, False), lambda: ops.ArgmaxOp(-2, False)),
+        ("GetitemOp(0)/GetitemOp(2**61-1)", lambda: ops.GetitemOp(0), lambda: ops.GetitemOp(2 ** 61 - 1)),
+        ("ReshapeOp((-1,2))/((-2,2))", lambda: ops.ReshapeOp((-1, 2)), lambda: ops.ReshapeOp((-2, 2))),
+        ("Number(-1)/Number(-2)", lambda: T.Number(-1), lambda: T.Number(-2)),
+        ("Number(-1.0)/Number(-2.0)", lambda: T.Number(-1.0), lambda: T.Number(-2.0)),
+        ("Number(0,n)/Number(2**61-1,2**62)", lambda: T.Number(0, 2 ** 62), lambda: T.Number(2 ** 61 - 1, 2 ** 62)),
+        ("Slice(stop=-1+..)", lambda: T.Slice("s", 0, 5, 1, 7), lambda: T.Slice("s", 0, 5, 2, 7)),
+        ("Variable(Reals[..])", lambda: T.Variable("v", Reals[n, 2]), lambda: T.Variable("v", Reals[2, n])),
+    ]
+    for label, mk1, mk2 in colliding:
+        try:
+            a, b = mk1(), mk2()          # both alive
+            a2, b2 = mk1(), mk2()
+        except Exception as e:
+            res.count("colliding-declined:%s" % type(e).__name__)
+            continue
+        res.count("distinctness-checks")
+        res.count("hash-collision-checks")
+        if a is b:
+            errors.append(("identity:hash-colliding-args-same-object", "%s: arguments with equal python hashes but different values give the same object" % label))
+        if a2 is not a or b2 is not b:
+            errors.append(("identity:hash-colliding-args-not-interned", "%s: rebuilding while both are alive gives different objects" % label))
+        del a, b, a2, b2
     same("type:Reduce[...]", lambda: T.Reduce[ops.AddOp, Tensor, frozenset], picklable=False)
     same("type:Binary[...]", lambda: T.Binary[ops.MulOp, Tensor, T.Variable], picklable=False)
     res.count("distinctness-checks")
